@@ -22,7 +22,9 @@ oracle (on the real code, independent of the model)
 """
 import io
 import math
+import signal
 import struct
+import time
 import warnings
 from contextlib import redirect_stdout
 
@@ -44,6 +46,9 @@ ASSUMPTIONS = [
     "runs whose bisection meets |sum(xnew)-maxvol| < 1e-11*scale or whose rel_fchange/rel_stepsize is within 1e-6 "
     "(relative) of its tolerance are skipped as boundary",
     "the while loop of the bisection has no cap: the model runs it with fuel 400 (never exhausted in the generated cases)",
+    "wall-clock budget per run of minimize_oc: 15 s (x3 thorough; normal runs take 1-50 ms), enforced by SIGALRM inside the "
+    "harness; a run that exceeds it is a disagreement, its recorded designs go to the oracle, and a time-out on a case the model "
+    "completes is reported with the case as failing input; quick tier: no new case after 120 s of running the real code",
     "convergence to the analytic optimum is observed (oracle), not proved; it is checked for runs that stop on the step-size rule (tolf = 0)",
 ]
 
@@ -53,6 +58,36 @@ FUEL = 400
 def _pm():
     import pymoto
     return pymoto
+
+
+class RunTimeout(Exception):
+    """raised inside the harness process by the watchdog when a run of the real code exceeds its budget"""
+
+
+class watchdog:
+    """SIGALRM based wall-clock budget around ONE run of the real code (main thread of the harness process)"""
+
+    def __init__(self, seconds):
+        self.seconds = float(seconds)
+        self.fired = False
+
+    def _handler(self, signum, frame):
+        self.fired = True
+        raise RunTimeout(f"run of the real code exceeded its budget of {self.seconds:.0f} s")
+
+    def __enter__(self):
+        self.old = signal.signal(signal.SIGALRM, self._handler)
+        signal.setitimer(signal.ITIMER_REAL, self.seconds)
+        return self
+
+    def __exit__(self, *a):
+        signal.setitimer(signal.ITIMER_REAL, 0)
+        signal.signal(signal.SIGALRM, self.old)
+        return False
+
+
+RUN_BUDGET = 15.0          # a normal minimize_oc run of the generated size takes 1-50 ms
+QUICK_WALL_CAP = 120.0     # quick tier: no new case is started after this many seconds of running the real code
 
 
 class fast_init_loc:
@@ -169,9 +204,15 @@ def run_impl(case):
     kw = dict(tolx=case["tolx"], tolf=case["tolf"], maxit=case["maxit"], xmin=bnd_arg(case["xmin"]),
               xmax=bnd_arg(case["xmax"]), move=bnd_arg(case["move"]), l1init=case["l1init"], l2init=case["l2init"],
               l1l2tol=case["l1l2tol"], maxvol=case["maxvol"], verbosity=0)
+    budget = case.get("_budget", RUN_BUDGET)
+    wd = watchdog(budget)
     with warnings.catch_warnings(), np.errstate(all="ignore"), redirect_stdout(io.StringIO()):
         warnings.simplefilter("ignore")
-        r = call_impl(pm.minimize_oc, net, sigs, obj, **kw)
+        try:
+            with wd:
+                r = call_impl(pm.minimize_oc, net, sigs, obj, **kw)
+        except RunTimeout as e:     # the alarm went off outside call_impl
+            r = ("err", "RunTimeout", str(e))
     # assemble the designs seen by the responses
     trace = []
     if case["net"] == "single":
@@ -187,6 +228,9 @@ def run_impl(case):
     if r[0] == "err":
         out["raises"] = r[1]
         out["msg"] = r[2]
+    if wd.fired:
+        out["timeout"] = budget
+        out["raises"] = "RunTimeout"
     return out
 
 
@@ -244,8 +288,9 @@ def vol_bound(case, p, c, xmin, xmax, move, maxvol):
 
 
 def oracle_run(case, out):
-    """the property checked directly on what the real code did; returns a message or None"""
-    if "raises" in out:
+    """the property checked directly on what the real code did (for a run stopped by the watchdog: on the designs recorded
+    before the time-out); returns a message or None"""
+    if "raises" in out and not out.get("timeout"):
         return None
     trace = [np.array(t) for t in out["trace"]]
     if not trace:
@@ -455,8 +500,18 @@ def public(case):
 
 def run_stream(ctx, stream, cases, with_oracle):
     reqs, meta = [], []
-    for case in cases:
+    t_start = time.time()
+    for ncase, case in enumerate(cases):
+        if ctx.quick and time.time() - t_start > QUICK_WALL_CAP:
+            ctx.notes.append(f"{stream} stream: generation stopped after {ncase} of {len(cases)} cases (wall-time cap of the quick "
+                             f"tier, {QUICK_WALL_CAP:.0f} s of running the real code)")
+            ctx.branch(f"{stream}.wall_cap_reached")
+            break
+        if not ctx.quick:
+            case["_budget"] = 3 * RUN_BUDGET
         out = run_impl(case)
+        if out.get("timeout"):
+            ctx.branch(f"{stream}.watchdog_timeout")
         if with_oracle:
             why = oracle_run(case, out)
             if why:
@@ -472,6 +527,11 @@ def run_stream(ctx, stream, cases, with_oracle):
             ctx.disagree(stream, pc, out, m, "driver error")
             continue
         mo = m["ok"]
+        if out.get("timeout") and "raises" not in mo:
+            # observable: the optimiser did not produce the designs the model produced
+            ctx.oracle_fail(f"minimize_oc did not return within {out['timeout']:.0f} s ({len(out['trace'])} network responses "
+                            f"recorded) on a problem the model completes in {len(mo['trace'])} responses (stop: {mo['stop']})",
+                            {"op": "run", "case": pc})
         if "raises" in mo or "raises" in out:
             ctx.compare_exact(stream, pc, out.get("raises"), mo.get("raises"), key=key)
             ctx.branch(f"{stream}.raises.{out.get('raises')}")
@@ -606,12 +666,18 @@ def _oracle_case(w):
     for k in ("xmin", "xmax", "move"):
         case[k] = tuple(case[k])
     out = run_impl(case)
-    return oracle_run(case, out)
+    why = oracle_run(case, out)
+    if why is None and out.get("timeout"):
+        why = f"minimize_oc did not return within {out['timeout']:.0f} s ({len(out['trace'])} network responses recorded)"
+    return why
 
 
 def search(ctx, disagreements):
     found = []
+    t0 = time.time()
     for d in disagreements:
+        if time.time() - t0 > 120:          # every re-run is under the watchdog; the search as a whole is capped too
+            break
         if d.get("stream") not in ("run", "malformed") or not d.get("case"):
             continue
         w = {"op": "run", "case": d["case"]}
@@ -622,6 +688,8 @@ def search(ctx, disagreements):
             break
     if not found:
         for t in range(300):
+            if time.time() - t0 > 180:
+                break
             case = gen_case(ctx, t)
             case["tolx"] = case["tolf"] = 0.0
             out = run_impl(case)
